@@ -133,6 +133,16 @@ from ampform.helicity.align import NoAlignment, SpinAlignment  # noqa: E402
 from ampform.helicity.align.axisangle import AxisAngleAlignment  # noqa: E402
 from ampform.helicity.align.dpd import DalitzPlotDecomposition, relabel_edge_ids  # noqa: E402
 
+import importlib  # noqa: E402
+import pkgutil  # noqa: E402
+
+for _m in pkgutil.walk_packages(ampform.__path__, "ampform."):  # every module: caches created at import time
+    try:  # (module level, static/class methods, nested classes) are decorated by the recording versions
+        importlib.import_module(_m.name)
+    except Exception:  # noqa: BLE001  optional dependencies
+        pass
+import ampform.dynamics.phasespace as phsp  # noqa: E402
+
 functools.lru_cache = _ORIG_LRU  # everything of the package is imported by now
 functools.cache = _ORIG_CACHE
 
@@ -226,11 +236,28 @@ def install_define_symbols_observer():
 LAST_DEFINE: list = []
 
 # ---------------------------------------------------------------------------------------
+def _custom_builder(resonance, variable_pool):
+    """A user-written ResonanceDynamicsBuilder (fresh objects on every call)."""
+    name = resonance.latex or resonance.name
+    g = sp.Symbol(f"g_{{{name}}}", real=True)
+    m0 = sp.Symbol(f"m_{{{name}}}", nonnegative=True)
+    return g / (m0**2 - variable_pool.incoming_state_mass**2), {g: 1.5, m0: resonance.mass}
+
+
+_RBW = dynb.RelativisticBreitWignerBuilder
 DYN = [
-    dynb.create_non_dynamic,
-    dynb.create_relativistic_breit_wigner,
-    dynb.create_relativistic_breit_wigner_with_ff,
-    dynb.create_analytic_breit_wigner,
+    dynb.create_non_dynamic,                                           # 0
+    dynb.create_relativistic_breit_wigner,                             # 1  prebuilt helper
+    dynb.create_relativistic_breit_wigner_with_ff,                     # 2  prebuilt helper
+    dynb.create_analytic_breit_wigner,                                 # 3  prebuilt helper
+    dynb.create_non_dynamic_with_ff,                                   # 4
+    _RBW(form_factor=True, energy_dependent_width=False),              # 5  fixed width x form factor
+    _RBW(form_factor=False, energy_dependent_width=True),              # 6
+    _RBW(form_factor=True, energy_dependent_width=True, phsp_factor=phsp.PhaseSpaceFactorAbs),    # 7
+    _RBW(form_factor=False, energy_dependent_width=True, phsp_factor=phsp.PhaseSpaceFactorSWave),  # 8
+    _RBW(form_factor=True, energy_dependent_width=False, phsp_factor=phsp.PhaseSpaceFactorComplex),  # 9
+    _RBW(form_factor=False, energy_dependent_width=False),             # 10 a second plain instance
+    _custom_builder,                                                   # 11
 ]
 _REACTIONS: dict = {}
 
@@ -466,6 +493,13 @@ def probe_histories() -> list:
                 ["new", v], ["align", 1, code], ["scalar", 1, True], ["formulate", 1, []],
                 ["stable", 0, None], ["formulate", 0, []],
             ]})
+    for name in PROBE_REACTIONS:
+        hs.append({"id": f"probe:{name}:dyn", "reaction": name, "ops": [
+            ["new", 0], ["assign", 0, 0, 5], ["formulate", 0, []], ["assign", 0, 0, 1], ["formulate", 0, []],
+            ["new", 0], ["assign", 1, 0, 10], ["assign", 1, 1, 7], ["formulate", 1, []],
+            ["assign", 0, 0, 6], ["assign", 0, 1, 4], ["formulate", 0, []], ["assign", 1, 1, 9], ["assign", 1, 0, 11],
+            ["formulate", 1, []], ["assign", 0, 1, 2], ["assign", 0, 0, 3], ["formulate", 0, []],
+        ]})
     return hs
 
 
@@ -586,7 +620,7 @@ def main():
             ri = rinfo(name)
             out[name] = {"canonical": ri.canonical, "n_res": len(ri.resonances), "base": ri.base,
                          "perms": ri.perms, "n_topos": [len(u) for u in ri.universe],
-                         "n_final": len(ri.variants[0].final_state),
+                         "n_final": len(ri.variants[0].final_state), "n_dyn": len(DYN),
                          "universe": [[{"nodes": sorted(t.nodes),
                                         "edges": {str(i): [e.originating_node_id, e.ending_node_id]
                                                   for i, e in t.edges.items()}} for t in u]
